@@ -80,10 +80,11 @@ func stripPattern(body string) string {
 
 // quantHyp describes (assert [guards =>] (forall binders body)).
 type quantHyp struct {
-	guards []string
-	names  []string
-	sorts  []string
-	body   string
+	guards  []string
+	names   []string
+	sorts   []string
+	body    string
+	pattern string // text of the :pattern annotation, if any
 }
 
 func parseQuantHyp(line string) (*quantHyp, bool) {
@@ -103,6 +104,9 @@ func parseQuantHyp(line string) (*quantHyp, bool) {
 		case op == "forall" && len(as) == 2:
 			q.names, q.sorts = parseBinders(as[0])
 			q.body = stripPattern(as[1])
+			if k := strings.Index(as[1], ":pattern"); k >= 0 && strings.HasPrefix(strings.TrimSpace(as[1]), "(! ") {
+				q.pattern = as[1][k:]
+			}
 			if strings.Contains(q.body, "(forall ") || strings.Contains(q.body, "(exists ") {
 				return nil, false
 			}
@@ -168,6 +172,28 @@ func slenTerms(s string) []string {
 			if !seen[t] && !strings.Contains(t, "|q ") {
 				seen[t] = true
 				out = append(out, t)
+			}
+		}
+	}
+	return out
+}
+
+// selectIndexTerms finds the index arguments I of "(select A I)" sub-terms (ground terms of the
+// skolemised goal: the places where the goal reads an array, hence where array-valued hypotheses
+// such as the element-wise description of append / copy / a loop invariant have to be instantiated).
+func selectIndexTerms(s string) []string {
+	seen := map[string]bool{}
+	var out []string
+	for i := 0; i < len(s); i++ {
+		if strings.HasPrefix(s[i:], "(select ") {
+			j := sexpEnd(s, i)
+			_, as := splitTop(s[i:j])
+			if len(as) == 2 {
+				t := strings.TrimSpace(as[1])
+				if !seen[t] && !strings.Contains(t, "|q ") && len(t) < 1500 {
+					seen[t] = true
+					out = append(out, t)
+				}
 			}
 		}
 	}
@@ -255,6 +281,37 @@ func (c *Ctx) smtInst(o *Obligation) (string, bool) {
 			}
 		}
 	}
+	// goal-directed instantiation of element-wise array facts (ematch.go)
+	{
+		var lines []string
+		for _, d := range c.decls {
+			lines = append(lines, d)
+		}
+		lines = append(lines, c.body[:o.Prefix]...)
+		for _, l := range ematchInstances(lines, hyps, goal+" "+strings.Join(ghyps, " ")+" "+o.Guard.S) {
+			b.WriteString(l + "\n")
+		}
+	}
 	b.WriteString("(assert (not " + goal + "))\n(check-sat)\n")
 	return b.String(), true
+}
+
+// selectIndexTermsAll is selectIndexTerms without the bound-variable filter (for hypothesis bodies).
+func selectIndexTermsAll(s string) []string {
+	seen := map[string]bool{}
+	var out []string
+	for i := 0; i < len(s); i++ {
+		if strings.HasPrefix(s[i:], "(select ") {
+			j := sexpEnd(s, i)
+			_, as := splitTop(s[i:j])
+			if len(as) == 2 {
+				t := strings.TrimSpace(as[1])
+				if !seen[t] {
+					seen[t] = true
+					out = append(out, t)
+				}
+			}
+		}
+	}
+	return out
 }
